@@ -65,6 +65,10 @@ def evaluate(v: Variant, root: str) -> dict:
     except Exception as e:  # noqa: BLE001
         return {"variant": v.name, "expected": v.expect, "got": f"crashed: {type(e).__name__}: {e}", "ok": False}
     viols = scratch.violations()
+    if v.expect == "missed":
+        # a breaking variant that is known to be outside the reach of the rule (documented blind spot): recorded, never required
+        got = "; ".join(f"{o.rule}@{o.construct}" for o in viols[:3]) or "no violation (UNDECIDED or invisible, as documented)"
+        return {"variant": v.name, "expected": "missed (documented blind spot)", "got": got, "ok": True, "blind_spot": True}
     if v.expect == "silent":
         ok = not viols and not scratch.errors
         got = "silent" if ok else "; ".join(f"{o.rule}@{o.construct}" for o in viols[:4]) + ("; errors: " + "; ".join(scratch.errors[:2]) if scratch.errors else "")
